@@ -268,6 +268,9 @@ func (handler *HeadersHandler) Handle(ctx context.Context, m wire.Message) ([]wi
 		// Ignore unknown blocks as they might happen when there is a reorg.
 		logger.Verbose(ctx, "Unknown header : %s", hash)
 		logger.Verbose(ctx, "Previous hash : %s", header.PrevBlock)
+
+		// The peer has blocks we don't know about.
+		handler.state.ClearPendingSync()
 		return nil, nil //errors.New(fmt.Sprintf("Unknown header : %s", hash))
 	}
 
@@ -278,6 +281,7 @@ func (handler *HeadersHandler) Handle(ctx context.Context, m wire.Message) ([]wi
 
 	if modified {
 		handler.state.ClearHeadersRequested()
+		handler.state.ClearPendingSync() // There might be more headers after these.
 	}
 	if addedCount > 0 {
 		logger.Info(ctx, "Added %d headers to height %d", addedCount, newHeight)
